@@ -32,93 +32,111 @@ theorem mdInv_enter {s : St} {io : Io} (hI : Inv s)
     · simp only [hmod]; exact h3
     · simp only [hmod]
 
-/-- **an accepted call is a sequence of atomic steps** (from an initialised state) -/
-theorem call_steps {o : Oracle} {fuel op cap : Nat} {input : Bytes} {s s' : St} {io' : Io}
-    (hop : op ≤ 3) (hI : Inv s) (hw : s.inputPos + input.length < two64)
+/-- an accepted PROCESS / FLUSH / FINISH call: atomic steps none of which is `check_flush_complete`,
+then `check_flush_complete` -/
+theorem call_steps2 {o : Oracle} {fuel op cap : Nat} {input : Bytes} {s s' : St} {io' : Io}
+    (hop2 : op ≤ 2) (hI : Inv s) (hw : s.inputPos + input.length < two64)
     (h : compressStream o fuel s op input cap = .ok (s', io', true)) :
-    ∃ evs, Steps o op (s, Io.start input cap) evs (s', io') := by
+    ∃ evs s1, Steps o op (s, Io.start input cap) evs (s1, io') ∧ (∀ e ∈ evs, e ≠ .tau 0)
+      ∧ Step o op (s1, io') (.tau 0) (s', io') ∧ s' = checkFlushComplete s1
+      ∧ (op ≠ 0 → ¬ (s1.pending.length = 0 ∧ s1.streamState = .processing)) := by
   unfold compressStream at h
   rw [ensureInitialized_id hI.init] at h
   simp only at h
   split at h
   · simp at h
   · rename_i hg
+    have hop3 : op ≠ 3 := by omega
+    rw [if_neg hop3] at h
+    have hrm : s.remainingMetadata = u32Max := by
+      by_cases hne : s.remainingMetadata = u32Max
+      · exact hne
+      · exact absurd ⟨hne, Or.inr hop3⟩ hg
+    have hnmd : ¬ (s.streamState = .metadataHead ∨ s.streamState = .metadataBody) := by
+      intro hh; exact absurd hrm (hI.mdIff.mp hh)
+    rw [if_neg hnmd] at h
     split at h
-    · rename_i hop3
-      subst hop3
-      have hIu := inv_updateSizeHint hI 0
-      obtain ⟨_, _, _, _, _, _, u7, _, u9, _⟩ := updateSizeHint_fields s 0
-      unfold processMetadata at h
-      split at h
-      · simp at h
-      · rename_i hle
-        split at h
-        · simp at h
-        · rename_i hgood
-          have hle' : input.length ≤ 16777216 := by simpa using hle
-          have hentry : (s.remainingMetadata ≠ u32Max ∧ input.length = s.remainingMetadata) ∨
-              (s.remainingMetadata = u32Max ∧ s.streamState = .processing ∧ input.length ≤ 16777216) := by
-            by_cases hrm : s.remainingMetadata = u32Max
-            · refine Or.inr ⟨hrm, ?_, hle'⟩
-              by_cases hpr : s.streamState = .processing
-              · exact hpr
-              · exfalso
-                have hme : mdEnter (updateSizeHint s 0) input.length = updateSizeHint s 0 := by
-                  unfold mdEnter; rw [if_neg (by rw [u9]; exact hpr)]
-                simp only at hgood
-                rw [hme, u9] at hgood
-                apply hgood
-                constructor
-                · intro hh; exact absurd hrm (hI.mdIff.mp (Or.inl hh))
-                · intro hh; exact absurd hrm (hI.mdIff.mp (Or.inr hh))
-            · refine Or.inl ⟨hrm, ?_⟩
-              by_cases hne : input.length = s.remainingMetadata
-              · exact hne
-              · exact absurd ⟨hrm, Or.inl hne⟩ hg
-          have hentryU : ((updateSizeHint s 0).remainingMetadata ≠ u32Max ∧ input.length = (updateSizeHint s 0).remainingMetadata) ∨
-              ((updateSizeHint s 0).remainingMetadata = u32Max ∧ (updateSizeHint s 0).streamState = .processing ∧ input.length ≤ 16777216) := by
-            rw [u7, u9]; exact hentry
-          have hP := mdInv_enter (io := { input := input, availIn := input.length, availOut := cap }) hIu hentryU
-          obtain ⟨evs, hevs⟩ := mdLoop_steps fuel _ _ _ _ _ hP h
-          exact ⟨.tau 2 :: evs, .cons (Step.mdEnter (io := Io.start input cap) hI rfl hentry) hevs⟩
-    · rename_i hop3
-      have hop2 : op ≤ 2 := by omega
-      have hrm : s.remainingMetadata = u32Max := by
-        by_cases hne : s.remainingMetadata = u32Max
+    · simp at h
+    · rename_i hok
+      have hacc : s.streamState ≠ .processing → input.length = 0 := by
+        intro hh
+        by_cases hne : input.length = 0
         · exact hne
-        · exact absurd ⟨hne, Or.inr hop3⟩ hg
-      have hnmd : ¬ (s.streamState = .metadataHead ∨ s.streamState = .metadataBody) := by
-        intro hh; exact absurd hrm (hI.mdIff.mp hh)
-      rw [if_neg hnmd] at h
+        · exact absurd ⟨hh, hne⟩ hok
+      split at h
+      · rename_i hfast
+        have hfm : fastMode s.params := ⟨hfast.1, by simpa using hfast.2.1, by simpa using hfast.2.2⟩
+        unfold compressStreamFast at h
+        rw [if_neg (by rcases hfast.1 with h1 | h1 <;> simp [h1])] at h
+        split at h
+        · rename_i s1 io1 hl1
+          simp only [Out.ok.injEq, Prod.mk.injEq] at h
+          obtain ⟨rfl, rfl, _⟩ := h
+          have hP0 : FastInv op s.streamState input.length s { input := input, availIn := input.length, availOut := cap } :=
+            ⟨hI, hfm, hrm, Nat.le_refl _, hacc, Or.inl rfl⟩
+          obtain ⟨hP1, hnp, hx, evs, hevs, hnt⟩ := fastLoop_steps hop2 fuel _ _ _ _ hP0 hl1
+          exact ⟨evs, s1, hevs, hnt, Step.cfc hP1.inv hop2 hP1.rm hnp hP1.nonprocZero, rfl, hx⟩
+        · simp at h
+        · simp at h
+      · rename_i hnfast
+        have hnf : ¬ fastMode s.params := by
+          intro hh
+          exact hnfast ⟨hh.1, by simp [hh.2.1], by simp [hh.2.2]⟩
+        exact slowLoop_steps (c0 := s.streamState) (n := input.length) (total := s.inputPos + input.length) hop2 fuel s _ _ _ _ hnf
+          ⟨hI, rfl, hw, hrm, Nat.le_refl _, hacc, Or.inl rfl⟩ h
+
+/-- **an accepted call is a sequence of atomic steps** (from an initialised state) -/
+theorem call_steps {o : Oracle} {fuel op cap : Nat} {input : Bytes} {s s' : St} {io' : Io}
+    (hop : op ≤ 3) (hI : Inv s) (hw : s.inputPos + input.length < two64)
+    (h : compressStream o fuel s op input cap = .ok (s', io', true)) :
+    ∃ evs, Steps o op (s, Io.start input cap) evs (s', io') := by
+  by_cases hop2 : op ≤ 2
+  · obtain ⟨evs, s1, h1, _, h2, _⟩ := call_steps2 hop2 hI hw h
+    exact ⟨evs ++ [.tau 0], h1.append (.one h2)⟩
+  have hop3 : op = 3 := by omega
+  subst hop3
+  unfold compressStream at h
+  rw [ensureInitialized_id hI.init] at h
+  simp only at h
+  split at h
+  · simp at h
+  · rename_i hg
+    simp only [↓reduceIte] at h
+    have hIu := inv_updateSizeHint hI 0
+    obtain ⟨_, _, _, _, _, _, u7, _, u9, _⟩ := updateSizeHint_fields s 0
+    unfold processMetadata at h
+    split at h
+    · simp at h
+    · rename_i hle
       split at h
       · simp at h
-      · rename_i hok
-        have hacc : s.streamState ≠ .processing → input.length = 0 := by
-          intro hh
-          by_cases hne : input.length = 0
-          · exact hne
-          · exact absurd ⟨hh, hne⟩ hok
-        split at h
-        · rename_i hfast
-          have hfm : fastMode s.params := ⟨hfast.1, by simpa using hfast.2.1, by simpa using hfast.2.2⟩
-          unfold compressStreamFast at h
-          rw [if_neg (by rcases hfast.1 with h1 | h1 <;> simp [h1])] at h
-          split at h
-          · rename_i s1 io1 hl1
-            simp only [Out.ok.injEq, Prod.mk.injEq] at h
-            obtain ⟨rfl, rfl, _⟩ := h
-            have hP0 : FastInv op s.streamState input.length s { input := input, availIn := input.length, availOut := cap } :=
-              ⟨hI, hfm, hrm, Nat.le_refl _, hacc, Or.inl rfl⟩
-            obtain ⟨hP1, hnp, evs, hevs⟩ := fastLoop_steps hop2 fuel _ _ _ _ hP0 hl1
-            exact ⟨evs ++ [.tau 0], hevs.append (.one (Step.cfc hP1.inv hop2 hP1.rm hnp hP1.nonprocZero))⟩
-          · simp at h
-          · simp at h
-        · rename_i hnfast
-          have hnf : ¬ fastMode s.params := by
-            intro hh
-            exact hnfast ⟨hh.1, by simp [hh.2.1], by simp [hh.2.2]⟩
-          exact slowLoop_steps (c0 := s.streamState) (n := input.length) (total := s.inputPos + input.length) hop2 fuel s _ _ _ _ hnf
-            ⟨hI, rfl, hw, hrm, Nat.le_refl _, hacc, Or.inl rfl⟩ h
+      · rename_i hgood
+        have hle' : input.length ≤ 16777216 := by simpa using hle
+        have hentry : (s.remainingMetadata ≠ u32Max ∧ input.length = s.remainingMetadata) ∨
+            (s.remainingMetadata = u32Max ∧ s.streamState = .processing ∧ input.length ≤ 16777216) := by
+          by_cases hrm : s.remainingMetadata = u32Max
+          · refine Or.inr ⟨hrm, ?_, hle'⟩
+            by_cases hpr : s.streamState = .processing
+            · exact hpr
+            · exfalso
+              have hme : mdEnter (updateSizeHint s 0) input.length = updateSizeHint s 0 := by
+                unfold mdEnter; rw [if_neg (by rw [u9]; exact hpr)]
+              simp only at hgood
+              rw [hme, u9] at hgood
+              apply hgood
+              constructor
+              · intro hh; exact absurd hrm (hI.mdIff.mp (Or.inl hh))
+              · intro hh; exact absurd hrm (hI.mdIff.mp (Or.inr hh))
+          · refine Or.inl ⟨hrm, ?_⟩
+            by_cases hne : input.length = s.remainingMetadata
+            · exact hne
+            · exact absurd ⟨hrm, Or.inl hne⟩ hg
+        have hentryU : ((updateSizeHint s 0).remainingMetadata ≠ u32Max ∧ input.length = (updateSizeHint s 0).remainingMetadata) ∨
+            ((updateSizeHint s 0).remainingMetadata = u32Max ∧ (updateSizeHint s 0).streamState = .processing ∧ input.length ≤ 16777216) := by
+          rw [u7, u9]; exact hentry
+        have hP := mdInv_enter (io := { input := input, availIn := input.length, availOut := cap }) hIu hentryU
+        obtain ⟨evs, hevs⟩ := mdLoop_steps fuel _ _ _ _ _ hP h
+        exact ⟨.tau 2 :: evs, .cons (Step.mdEnter (io := Io.start input cap) hI rfl hentry) hevs⟩
 
 /-- the first call on a fresh encoder: initialisation, then atomic steps -/
 theorem call_steps_fresh {o : Oracle} {fuel op cap : Nat} {input : Bytes} {s s' : St} {io' : Io}
